@@ -147,7 +147,10 @@ func safely(f func()) (pm string) {
 }
 
 // CheckAll: C04 and C05(a) over the whole registry. prop selects which findings are reported.
+var allPresets []Preset
+
 func CheckAll(run *core.Run, prop string, presets []Preset, pairsBelow int, maxLen uint64, st *Stats) {
+	allPresets = presets
 	rows := Registry()
 	st.Types = len(rows)
 	type job struct {
@@ -229,6 +232,47 @@ func checkRow(run *core.Run, prop string, row Row, ps Preset, pairsBelow int, ma
 			}
 		}
 	}
+	// A receiver that already holds a value decoded under ANOTHER preset (an object taken from a pool, a variable
+	// reused in a loop): decoding must replace its content completely — a preset-sized vector that was longer must
+	// not keep a stale tail.
+	recycled := func(enc []byte, desc string) {
+		// Only for preset-sized vector types: their Deserialize methods resize the receiver to the preset's length
+		// explicitly. List types APPEND to the receiver by library convention (a fresh receiver is expected), which
+		// the property does not speak about.
+		if prop != "C04" || !(strings.HasPrefix(row.Tag, "vector,") || strings.HasPrefix(row.Tag, "bitvector,")) {
+			return
+		}
+		for _, other := range allPresets {
+			if other.Name == ps.Name {
+				continue
+			}
+			og := refssz.NewGen(row.Ref, row.Tag, ParamsOf(other.Spec), maxLen)
+			oenc := og.Encode(og.Distinct(7, 3))
+			if len(oenc) > 1<<16 {
+				continue
+			}
+			dirty := zv{row.New(), other.Spec}
+			if safely(func() { _ = dirty.deserialize(oenc) }) != "" {
+				continue
+			}
+			z := zv{dirty.v, ps.Spec}
+			var derr error
+			if pm := safely(func() { derr = z.deserialize(enc) }); pm != "" {
+				rep("C04", "panic/Deserialize-into-used-receiver", "panic: "+pm, desc+", receiver previously decoded under preset "+other.Name)
+				continue
+			}
+			if derr != nil {
+				continue // refusals are judged on a fresh receiver
+			}
+			out, serr := z.serialize()
+			if serr != nil || !bytes.Equal(out, enc) {
+				rep("C04", "roundtrip/used-receiver", fmt.Sprintf("decoding into a receiver that held a value of preset %s, then encoding, gives different bytes (%d vs %d bytes, first difference at %d; err %v)", other.Name, len(out), len(enc), firstDiffAt(out, enc), serr), desc)
+			} else if bl := z.byteLength(); bl != uint64(len(enc)) {
+				rep("C04", "ByteLength/used-receiver", fmt.Sprintf("ByteLength() = %d after decoding %d bytes into a used receiver (preset %s before)", bl, len(enc), other.Name), desc)
+			}
+		}
+	}
+	nRecycled := 0
 	gen.Values(pairs, func(desc string, ptr reflect.Value) {
 		atomic.AddInt64(&st.Values, 1)
 		if desc != "zero" {
@@ -262,6 +306,10 @@ func checkRow(run *core.Run, prop string, row Row, ps Preset, pairsBelow int, ma
 		}
 		if bl := z.byteLength(); bl != uint64(len(enc)) {
 			rep("C04", "ByteLength", fmt.Sprintf("ByteLength() = %d, %d bytes were written", bl, len(enc)), desc)
+		}
+		if nRecycled < 3 && len(enc) <= 1<<16 {
+			nRecycled++
+			recycled(enc, desc)
 		}
 		fl := z.fixedLength()
 		if isFixed && fl != refFixed {
